@@ -24,6 +24,134 @@ pub const WS: &[&str] = &[" ", "\t", "\u{a0}", "\u{2003}", "  ", "\u{c}", "\r",
 /// non-ASCII code points
 pub const ASCII_EDGE: &[&str] = &["\u{0}", "\u{1}", "\u{7}", "\u{8}", "\u{b}", "\u{c}", "\u{e}", "\u{1a}", "\u{1c}", "\u{1f}", "\u{7f}", "\u{7f}", "~", "!", "/", ":", "@", "[", "`", "{", "0", "9", "A", "Z", "z", "\u{80}", "\u{9c}", "\u{9f}"];
 
+/// **Dictionary from the code under test.** Every run reads the crate's current sources
+/// (`VERIF_REPO_SRC`, default `/repo/src`) and collects (a) every non-ASCII character, every
+/// `\u{…}` / `\x..` escape, every ASCII char literal and every hexadecimal literal that is a
+/// scalar value above U+007F — characters the code treats specially enter the alphabets without
+/// anyone having to guess them — and (b) every decimal or hexadecimal number between 10 and
+/// 1 000 000: limits, block sizes and fall-back thresholds become input sizes and widths (±1).
+/// A change that adds a special case brings its own trigger into the dictionary.
+pub struct Dict {
+    pub chars: Vec<char>,
+    pub numbers: Vec<usize>,
+}
+
+pub fn dict() -> &'static Dict {
+    static D: std::sync::OnceLock<Dict> = std::sync::OnceLock::new();
+    D.get_or_init(|| {
+        let dir = std::env::var("VERIF_REPO_SRC").unwrap_or_else(|_| "/repo/src".to_string());
+        let mut files = Vec::new();
+        let mut stack = vec![std::path::PathBuf::from(dir)];
+        while let Some(d) = stack.pop() {
+            if let Ok(rd) = std::fs::read_dir(&d) {
+                for e in rd.flatten() {
+                    let p = e.path();
+                    if p.is_dir() {
+                        stack.push(p);
+                    } else if p.extension().map(|x| x == "rs").unwrap_or(false) {
+                        files.push(p);
+                    }
+                }
+            }
+        }
+        files.sort();
+        let mut chars: Vec<char> = Vec::new();
+        let mut numbers: Vec<usize> = Vec::new();
+        let mut add_c = |c: char, v: &mut Vec<char>| {
+            if !v.contains(&c) {
+                v.push(c);
+            }
+        };
+        for f in files {
+            // verification hooks are ours, not the crate's
+            if f.file_name().map(|n| n == "verif_hooks.rs").unwrap_or(false) {
+                continue;
+            }
+            let Ok(text) = std::fs::read_to_string(&f) else { continue };
+            let b: Vec<char> = text.chars().collect();
+            let mut i = 0;
+            while i < b.len() {
+                let c = b[i];
+                if !c.is_ascii() {
+                    add_c(c, &mut chars);
+                    i += 1;
+                } else if c == '\\' && i + 2 < b.len() && b[i + 1] == 'u' && b[i + 2] == '{' {
+                    let mut j = i + 3;
+                    let mut h = String::new();
+                    while j < b.len() && b[j] != '}' && h.len() < 8 {
+                        h.push(b[j]);
+                        j += 1;
+                    }
+                    if let Some(ch) = u32::from_str_radix(&h, 16).ok().and_then(char::from_u32) {
+                        add_c(ch, &mut chars);
+                    }
+                    i = j;
+                } else if c == '\\' && i + 3 < b.len() && b[i + 1] == 'x' {
+                    let h: String = b[i + 2..i + 4].iter().collect();
+                    if let Some(ch) = u32::from_str_radix(&h, 16).ok().and_then(char::from_u32) {
+                        add_c(ch, &mut chars);
+                    }
+                    i += 4;
+                } else if c == '\'' && i + 2 < b.len() && b[i + 2] == '\'' && b[i + 1] != '\\' {
+                    add_c(b[i + 1], &mut chars);
+                    i += 3;
+                } else if c.is_ascii_digit() && (i == 0 || !(b[i - 1].is_ascii_alphanumeric() || b[i - 1] == '_' || b[i - 1] == '.')) {
+                    let mut j = i;
+                    let mut lit = String::new();
+                    while j < b.len() && (b[j].is_ascii_alphanumeric() || b[j] == '_') {
+                        if b[j] != '_' {
+                            lit.push(b[j]);
+                        }
+                        j += 1;
+                    }
+                    let lit = lit.trim_end_matches("usize").trim_end_matches("u32").trim_end_matches("u64").trim_end_matches("u16").trim_end_matches("u8").to_string();
+                    let n = if let Some(h) = lit.strip_prefix("0x") { u64::from_str_radix(h, 16).ok() } else { lit.parse::<u64>().ok() };
+                    if let Some(n) = n {
+                        if lit.starts_with("0x") && n > 0x7f {
+                            if let Some(ch) = u32::try_from(n).ok().and_then(char::from_u32) {
+                                add_c(ch, &mut chars);
+                            }
+                        }
+                        if (10..=1_000_000).contains(&n) && !numbers.contains(&(n as usize)) {
+                            numbers.push(n as usize);
+                        }
+                    }
+                    i = j.max(i + 1);
+                } else {
+                    i += 1;
+                }
+            }
+        }
+        numbers.sort();
+        Dict { chars, numbers }
+    })
+}
+
+/// a character from the dictionary that may stand inside a paragraph of flavour `fl`
+fn dict_char(rng: &mut Rng, fl: Flavor) -> Option<char> {
+    let d = dict();
+    if d.chars.is_empty() {
+        return None;
+    }
+    let c = *rng.pick(&d.chars);
+    let ok = match c {
+        '\n' | '\r' => fl == Flavor::Mixed,
+        '\x1b' => matches!(fl, Flavor::AnsiBad | Flavor::Mixed),
+        _ => true,
+    };
+    if ok { Some(c) } else { None }
+}
+
+/// a size taken from the numbers in the code (±1)
+pub fn dict_number(rng: &mut Rng, max: usize) -> Option<usize> {
+    let v: Vec<usize> = dict().numbers.iter().copied().filter(|n| *n <= max).collect();
+    if v.is_empty() {
+        return None;
+    }
+    let n = *rng.pick(&v);
+    Some(match rng.below(3) { 0 => n - 1, 1 => n, _ => n + 1 })
+}
+
 #[derive(Clone, Copy, Debug, PartialEq, Eq, Hash)]
 pub enum Flavor {
     Plain,
@@ -72,6 +200,12 @@ fn token(rng: &mut Rng, fl: Flavor) -> &'static str {
 /// ASCII characters the crate searches for: U+2010 HYPHEN, U+2011, U+2212, U+FF0D, U+2028, NEL, …),
 /// Latin-1, CJK punctuation, full-width forms, and uniformly random scalar values
 pub fn exotic(rng: &mut Rng) -> char {
+    if rng.chance(1, 5) && !dict().chars.is_empty() {
+        let c = *rng.pick(&dict().chars);
+        if c != '\n' && c != '\r' && c != '\x1b' {
+            return c;
+        }
+    }
     let cp = match rng.below(8) {
         0 | 1 => 0x2000 + rng.below(0x70) as u32,          // General Punctuation
         2 => 0x80 + rng.below(0x80) as u32,                // Latin-1 supplement (NEL, NBSP, SHY, …)
@@ -100,6 +234,16 @@ pub fn para(rng: &mut Rng, fl: Flavor, max_tokens: usize) -> String {
                 s.push_str(*rng.pick(PLAIN));
             }
             continue;
+        }
+        // a character the code under test mentions (see `dict`)
+        if rng.chance(1, 14) {
+            if let Some(c) = dict_char(rng, fl) {
+                if rng.chance(1, 2) {
+                    s.push_str(*rng.pick(PLAIN));
+                }
+                s.push(c);
+                continue;
+            }
         }
         if fl != Flavor::Plain && rng.chance(1, 12) {
             let c = exotic(rng);
@@ -163,7 +307,7 @@ pub fn width_for(rng: &mut Rng, text: &str) -> usize {
         7 => bl + 1,
         8 => bl.saturating_sub(1),
         9 => if rng.chance(1, 2) { usize::MAX } else { usize::MAX - 1 },
-        10 => if rng.chance(1, 4) { machine_boundary(rng) } else { rng.range(0, 12) },
+        10 => if rng.chance(1, 4) { machine_boundary(rng) } else if rng.chance(1, 3) { dict_number(rng, 1_000_000).unwrap_or(7) } else { rng.range(0, 12) },
         _ => rng.range(0, 12),
     }
 }
